@@ -31,6 +31,15 @@ HDR_INCLUDES = """#include <vector>
 INST_TU = HDR_INCLUDES + """
 namespace fcp {
 using Elem = Unsigned<std::uint8_t, 3>;
+// probes: whatever class a wrapper name denotes today (a class template, an alias of one, ...) is found through these
+using P_U3 = Unsigned<std::uint8_t, 3>;
+using P_S12 = Signed<std::int16_t, 12>;
+using P_F = Float;
+using P_D = Double;
+using P_STR = String;
+using P_ARR = Array<Elem, 4>;
+using P_DYN = DynamicArray<Elem>;
+using P_OPT = Optional<Elem>;
 void fcpverif_inst(Buffer& b) {
     Unsigned<std::uint8_t, 3> u{}; u.Encode(b); (void)Unsigned<std::uint8_t, 3>::Decode(b);
     Signed<std::int16_t, 12> s{}; s.Encode(b); (void)Signed<std::int16_t, 12>::Decode(b);
@@ -142,8 +151,21 @@ class CppCodec:
             return "%s<%s>" % (name, ",".join(parts))
         return name
 
+    PROBES = {"P_U3": "Unsigned<unsigned char,3>", "P_S12": "Signed<short,12>", "P_F": "Float", "P_D": "Double", "P_STR": "String",
+              "P_ARR": "Array<fcp::Unsigned<unsigned char, 3>,4>", "P_DYN": "DynamicArray<fcp::Unsigned<unsigned char, 3>>", "P_OPT": "Optional<fcp::Unsigned<unsigned char, 3>>"}
+
     def wrappers(self) -> Dict[str, CNode]:
         out = {}
+        # through the probe aliases: robust against the wrapper being an alias of another template
+        for d in self.decls:
+            if d.kind == "TypeAliasDecl" and d.get("name") in self.PROBES:
+                recs = [x for x in walk(d) if x.kind == "RecordType" and isinstance(x.get("decl"), dict)]
+                if recs:
+                    node = self.by_id.get(recs[-1]["decl"].get("id"))
+                    if node is not None and node.inner:
+                        out[self.PROBES[d["name"]]] = node
+        if len(out) == len(self.PROBES):
+            return out
         for d in self.decls:
             if d.kind == "ClassTemplateDecl":
                 for sp in d.inner:
@@ -445,7 +467,7 @@ class CppCodec:
                     return out
                 cls = self.class_of(target)
                 label = self.spec_label(cls) if cls is not None else "?"
-                if elem is not None and label == elem:
+                if elem is not None and (label == elem or (cls is not None and cls.get("id") is not None and cls.get("id") == self.wrappers().get(elem, CNode({})).get("id"))):
                     out.append(("rec", "elem"))
                     return out
                 inner = self.effects(target, None) if any(c.kind == "CompoundStmt" for c in target.inner) else [("rec", label)]
